@@ -13,6 +13,7 @@ import (
 
 	"github.com/google/mtail/internal/metrics"
 	"github.com/google/mtail/internal/mtail"
+	"github.com/google/mtail/internal/simrt"
 	"github.com/google/mtail/internal/waker"
 )
 
@@ -45,6 +46,11 @@ func c25Broken() string { return "counter sum\n/x/ {\n  sum++\n" }
 
 // conflicts in kind with the witness's counter n, after declaring another metric
 func c25Conflict() string { return "counter ok_metric\ngauge n\n/./ {\n  ok_metric++\n  n = 1\n}\n" }
+
+// two declarations exported under one name with different kinds: refused while its own metrics are being registered
+func c25SelfConflict() string {
+	return "counter a as \"dup_name\"\ngauge b as \"dup_name\"\n/./ {\n  a++\n  b = 1\n}\n"
+}
 
 func c25IsNumber(w string) bool {
 	if w == "" {
@@ -83,7 +89,7 @@ func propC25(e *Env) {
 		verCounter++
 		src := map[string]func() string{
 			"errp": func() string { return c25Errp(verCounter) }, "divp": func() string { return c25Divp(verCounter) },
-			"broken": c25Broken, "conflict": c25Conflict,
+			"broken": c25Broken, "conflict": c25Conflict, "selfconflict": c25SelfConflict,
 		}[kind]()
 		os.WriteFile(filepath.Join(progs, n), []byte(src), 0o644)
 		ps[n].kind, ps[n].onDisk, ps[n].version = kind, true, verCounter
@@ -100,7 +106,7 @@ func propC25(e *Env) {
 					delete(loadedVersion, n)
 					w.unloads++
 				}
-			case s.kind == "broken" || s.kind == "conflict":
+			case s.kind == "broken" || s.kind == "conflict" || s.kind == "selfconflict":
 				w.loadErrs++
 			default:
 				if s.running == "" || loadedVersion[n] != s.version {
@@ -140,6 +146,16 @@ func propC25(e *Env) {
 	store := metrics.NewStore()
 	ctx, cancel := context.WithCancel(context.Background())
 	defer cancel()
+	// one run in three also tails a stream socket (in-memory transport): several connections share one log name
+	snet := installSimNet(e)
+	resetFifoGates()
+	sockSource := ""
+	patterns := []string{filepath.Join(logs, "*.log")}
+	if e.Choose("gen", 3) == 0 {
+		sockSource = fmt.Sprintf("unix:///sim/c25-%d.sock", e.R.Seed) // a log name this process has never counted lines for
+		patterns = append(patterns, sockSource)
+		baseLogLines[sockSource] = expvarMapInt("log_lines_total", sockSource)
+	}
 	sw, pw := NewSimWaker(), NewSimWaker()
 	var swk, pwk waker.Waker = sw, pw
 	if e.Choose("knob", 5) == 0 {
@@ -154,7 +170,7 @@ func propC25(e *Env) {
 	var nerr error
 	returned := false
 	e.S.Go("mtail", func() {
-		srv, nerr = mtail.New(ctx, store, mtail.ProgramPath(progs), mtail.LogPathPatterns(filepath.Join(logs, "*.log")),
+		srv, nerr = mtail.New(ctx, store, mtail.ProgramPath(progs), mtail.LogPathPatterns(patterns...),
 			mtail.LogPatternPollWaker(pwk), mtail.LogstreamPollWaker(swk))
 		if nerr != nil {
 			returned = true
@@ -216,6 +232,7 @@ func propC25(e *Env) {
 		exists[p] = true
 	}
 	var did []string
+	sockClosed := false
 	hist := func() string { return strings.Join(did, "; ") }
 	check := func(when string) bool {
 		v := peekStore(store)
@@ -226,7 +243,11 @@ func propC25(e *Env) {
 			e.Fail("lines_total", "%s, history [%s]: %d lines were appended to the logs; lines_total moved by %d and the witness program counted %d", when, hist(), totalAppended, gotLines, wn)
 			return false
 		}
-		for _, p := range paths {
+		logNames := paths
+		if sockSource != "" {
+			logNames = append(append([]string{}, paths...), sockSource)
+		}
+		for _, p := range logNames {
 			got := expvarMapInt("log_lines_total", p) - baseLogLines[p]
 			wp, _ := v.intOf("perfile", "aaa_witness.mtail", p)
 			if got != appended[p] || wp != appended[p] {
@@ -251,7 +272,7 @@ func propC25(e *Env) {
 			}
 			if got.loadErrs != w.loadErrs {
 				cls := "load_errors-compile"
-				if ps[n] != nil && ps[n].kind == "conflict" {
+				if ps[n] != nil && (ps[n].kind == "conflict" || ps[n].kind == "selfconflict") {
 					cls = "load_errors-register"
 				}
 				e.Fail(cls, "%s, history [%s]: %d loads of %s failed (broken source or refused registration), prog_load_errors_total moved by %d", when, hist(), w.loadErrs, n, got.loadErrs)
@@ -263,6 +284,9 @@ func propC25(e *Env) {
 			if exists[p] {
 				live++
 			}
+		}
+		if sockSource != "" && !sockClosed {
+			live++
 		}
 		if got := logCountVar() - baseLogCount; got != live {
 			e.Fail("log_count", "%s, history [%s]: %d log files exist and match the pattern, log_count is %d", when, hist(), live, got)
@@ -343,6 +367,46 @@ func propC25(e *Env) {
 			} else {
 				desc = "nop"
 			}
+		case a == 6 && sockSource != "" && e.Bool("gen"): // two connections arrive together on the socket and write a few lines each
+			nconn := 2 + e.Choose("gen", 2)
+			finished := 0
+			for c := 0; c < nconn; c++ {
+				k := 1 + e.Choose("gen", 3)
+				var sb strings.Builder
+				for j := 0; j < k; j++ {
+					lineNo++
+					w := []string{"7", "42", "abc", "x1"}[e.Choose("gen", 4)]
+					fmt.Fprintf(&sb, "%d %s\n", lineNo, w)
+					appended[sockSource]++
+					totalAppended++
+					if ps["errp.mtail"].running == "errp" && !c25IsNumber(w) {
+						rtErrs["errp.mtail"]++
+					}
+				}
+				data := sb.String()
+				e.S.Go("sockwriter", func() {
+					defer func() { finished++ }()
+					conn, err := snet.dial("unix", strings.TrimPrefix(sockSource, "unix://"))
+					if err != nil {
+						return
+					}
+					simrt.HYield()
+					conn.clientWrite([]byte(data))
+					simrt.HYield()
+					conn.clientClose()
+				})
+			}
+			if !quiesce() {
+				cancel()
+				return
+			}
+			if finished != nconn {
+				e.Broken("socket writers did not finish")
+				cancel()
+				return
+			}
+			desc = fmt.Sprintf("%d connections write to the socket", nconn)
+			e.Probe("socket_burst")
 		case a == 6: // delete / recreate
 			p := paths[e.Choose("gen", len(paths))]
 			if exists[p] {
@@ -369,8 +433,13 @@ func propC25(e *Env) {
 				desc = "write " + n + " (broken)"
 				e.Probe("prog_broken")
 			case 2:
-				writeProg(n, "conflict")
-				desc = "write " + n + " (kind conflict with witness)"
+				if e.Bool("gen") {
+					writeProg(n, "conflict")
+					desc = "write " + n + " (kind conflict with witness)"
+				} else {
+					writeProg(n, "selfconflict")
+					desc = "write " + n + " (two declarations exported under one name with different kinds)"
+				}
 				e.Probe("prog_refused")
 			case 3:
 				if ps[n].onDisk {
@@ -437,6 +506,7 @@ func propC25(e *Env) {
 	for _, p := range paths {
 		exists[p] = false // every stream has ended
 	}
+	sockClosed = true
 	did = append(did, "shutdown")
 	if !check("after shutdown") {
 		return
